@@ -2,8 +2,8 @@
 import os, struct, re
 from . import build, core, dech
 
-K_FILE, K_PIPE, K_CBSKIP, K_CBNOSKIP = 0, 1, 2, 3
-KIND_NAMES = ['FILE-seekable', 'FILE-pipe', 'callbacks+skip', 'callbacks-noskip']
+K_FILE, K_PIPE, K_CBSKIP, K_CBNOSKIP, K_PATH = 0, 1, 2, 3, 4
+KIND_NAMES = ['FILE-seekable', 'FILE-pipe', 'callbacks+skip', 'callbacks-noskip', 'path-owned-FILE']
 P_PLAIN, P_EOD, P_EOF, P_DEFAULT = 0, 1, 2, 3
 OP_NEXT, OP_READ, OP_READALL, OP_CHECK, OP_EXTRACT, OP_EXTRACT_NAMED, OP_STOP, OP_CHECK_NOCB, OP_WALK = range(9)
 OPNAMES = ['next', 'read', 'readall', 'check', 'extract', 'extract-named', 'stop', 'check-nocb', 'walk']
